@@ -25,18 +25,20 @@ def templates_for(tier, seed):
     core += list(fam.extras())
     u4 = list(fam.universe(4, 3, ("module", "function", "class")))
     u4x = list(fam.universe(4, 3, ("def_in_loop", "method"))) + list(fam.decorated(3)) + list(fam.decorated(4))
+    comp = list(fam.composed(3))
     if tier == "quick":
         rnd = random.Random(seed)
-        # fixed core + seed-rotated slice of the 4-node universe; interrupts are the interesting ones
-        pick4 = rnd.sample(u4, 150) + rnd.sample(u4x, 40)
-        chosen = core + pick4
-        universe_note = {"core": len(core), "u4": len(u4), "u4x": len(u4x), "picked4": len(pick4)}
+        # fixed core + seed-rotated slices of the 4-node universe and of the composed (deeper) family
+        pick4 = rnd.sample(u4, 120) + rnd.sample(u4x, 30)
+        pickc = rnd.sample(comp, 260)
+        chosen = core + pick4 + pickc
+        universe_note = {"core": len(core), "u4": len(u4), "u4x": len(u4x), "picked4": len(pick4), "composed_universe": len(comp), "picked_composed": len(pickc)}
     else:
         u5 = list(fam.universe(5, 3, ("module", "function")))
         rnd = random.Random(seed)
         pick5 = rnd.sample(u5, 700)
-        chosen = core + u4 + u4x + pick5
-        universe_note = {"core": len(core), "u4": len(u4), "u4x": len(u4x), "u5_universe": len(u5), "picked5": len(pick5)}
+        chosen = core + u4 + u4x + pick5 + comp
+        universe_note = {"core": len(core), "u4": len(u4), "u4x": len(u4x), "u5_universe": len(u5), "picked5": len(pick5), "composed_universe": len(comp)}
     for d in chosen:
         tpls.append(mk(*d))
     return tpls, universe_note
@@ -56,6 +58,12 @@ def run(tier, args=None):
             d.run(tpls)
             agg = merge(None, d)
         else:
+            # all 4 semantic configurations for the plain universe up to 4 nodes; one rotating
+            # configuration for the decorated / 5-node / composed families
+            for k, t in enumerate(tpls):
+                plain = t.desc.split(":")[1] in ("module", "function", "class", "extra") and ":ctx:" not in t.desc and len(t.desc.split(":")[2].replace("(", "").replace(")", "").replace("e", "")) <= 4
+                if not plain:
+                    t.sem_configs = [common.SEM_CONFIGS[(k + seed) % 4]]
             d = sce.Driver(rep, known, wd, tier, per_cond_timeout=60)
             d.run(tpls)
             agg = merge(None, d)
@@ -89,7 +97,7 @@ def finish(rep, agg, note, tier):
         "oneliner.pending_nodes._PendingCompoundStmt._iter_branch / PendingIf / PendingWhile / PendingFor / PendingBreak / PendingContinue / PendingReturn / PendingFunctionDef / PendingClassDef (lowering under test)",
         "oneliner.presets.iter_wrapper (executed symbolically as part of the converted text)",
     ]
-    cov["bounds"] = "skeleton size <= 4 nodes exhaustive (thorough), 5 nodes sampled; nesting depth <= 3; schedule len(B) <= %d then False; every iterable yields 0..2 items; event budget 80" % (5 if tier == "quick" else 6)
+    cov["bounds"] = "skeleton size <= 4 nodes exhaustive (thorough), 5 nodes sampled; composed family: every interrupt-containing block of <= 3 nodes spliced into 21 loop/else/if contexts of up to 3 levels (6-9 nodes, depth <= 5) at module/function/class/method level; nesting depth <= 3 in the plain universe; schedule len(B) <= %d then False; every iterable yields 0..2 items; event budget 80" % (5 if tier == "quick" else 6)
     cov["explanation"] = "one PEP-316 condition per (skeleton, semantic configuration): CrossHair/z3 explore every path of exec(source) and eval(converted) over the symbolic schedule and iterable lengths and compare the traces of marker/condition/iterator events and the return value"
     rep.assumptions += [
         "stubs: mark/cond/log/It are harness helpers injected as globals on both sides",
